@@ -1,6 +1,7 @@
 (** Entry.v — one entry point per model function for the correspondence check:
     the harness sends  ["op", arg]  as one line of ASCII JSON, the model answers one line. *)
 From InToto.Model Require Import Base Json Rule Glob Rules Utf8 Match DirDigest Canon EntryVerify.
+From InToto.Model Require Import EntrySublay.
 
 Definition s_ok : str := [111;107]%N.
 Definition jok (j : json) : json := JDict [(s_ok, j)].
@@ -122,14 +123,14 @@ Definition run_op (op : str) (arg : json) : json :=
   else if eqs op op_ostree then ostree_op arg
   else if eqs op op_rules_trace then rules_trace arg
   else if eqs op op_fnmatch then fnmatch_op arg
-  else
+  else match run_op_sublay op arg with Some r => r | None =>
   if eqs op op_lower then match arg with JStr s => jok (JStr (lower s)) | _ => jerr EUnmodelled end
   else if eqs op op_upper then match arg with JStr s => jok (JStr (upper s)) | _ => jerr EUnmodelled end
   else if eqs op op_unpack_rule then jres meaning_json (unpack_rule arg)
   else if eqs op op_pack_unpacked then
     (* unpack, then pack the meaning: {"ok": [tokens]} / {"err": ..} ; error if unpack fails *)
     jres jstr_list (do m <- unpack_rule arg; pack_rule m)
-  else jerr EUnmodelled.
+  else jerr EUnmodelled end.
 
 Definition bad_request : list N := [66;65;68;45;82;69;81;85;69;83;84]%N.
 
